@@ -18,6 +18,8 @@ fn matrices() -> Vec<(&'static str, Small)> {
         // row weights 3,5,4,5: lighter rows precede heavier ones (scratch buffers grow and are reused)
         ("irregular4x8", Small::from_rows(8, &[&[0, 1, 4], &[1, 2, 3, 5, 6], &[0, 2, 6, 7], &[1, 3, 4, 5, 7]])),
         ("hamming3x7", Small::from_rows(7, &[&[0, 1, 2, 4], &[1, 2, 3, 5], &[0, 2, 3, 6]])),
+        // a variable that takes part in no check (all-zero column) and one of degree 1
+        ("zerocol4x7", Small::from_rows(7, &[&[0, 1, 3], &[1, 2, 4], &[0, 4, 5], &[2, 3]])),
         // check degrees 9 and 10 (above any small-degree fast path), the lighter check first
         ("wide2x12", Small::from_rows(12, &[&[0, 1, 2, 3, 4, 5, 6, 7, 8], &[2, 3, 4, 5, 6, 7, 8, 9, 10, 11]])),
         // check degrees 17, 9, 18: non-monotone, crossing 16
@@ -353,11 +355,11 @@ pub fn run(run: &Run) -> i32 {
         run,
         acc,
         Coverage {
-            rule: "for each of the 36 implementations x 8 matrices (regular, with degree-1 and degree-3 variables, punctured, chain, row weights 3-5-4-5, Hamming, check degrees 9-10, check degrees 17-9-18): BFS over histories of decode(v, L) calls, v from a menu of ~14 (23 thorough) LLR vectors (codeword signs, single/double errors, contradiction, zeros, +-1e30, all-negative, +-1e-46, 8-bit boundary magnitudes, the historical limit-0 pair) x L in {0,1,2,6[,25]}; state key = the decoder's full derived Debug dump (every field, floats in round-trip form), so merged states are identical objects; search to closure (depth cap 20, 4000 states per machine and 200 violations per machine as safety nets, reported if hit). Oracle per transition: result equals a freshly built decoder's. In addition, for matrices with a check or a variable of degree 17, 65, 129, 257 and a 1025-row block-diagonal matrix (thorough: more), every history of two decode calls over 4 vectors x 2 limits (depth-bounded, not closed). Non-trivial = transition from a non-initial state whose previous call was not a zero-iteration shortcut.".into(),
+            rule: "for each of the 36 implementations x 9 matrices (regular, with an all-zero column, with degree-1 and degree-3 variables, punctured, chain, row weights 3-5-4-5, Hamming, check degrees 9-10, check degrees 17-9-18): BFS over histories of decode(v, L) calls, v from a menu of ~14 (23 thorough) LLR vectors (codeword signs, single/double errors, contradiction, zeros, +-1e30, all-negative, +-1e-46, 8-bit boundary magnitudes, the historical limit-0 pair) x L in {0,1,2,6[,25]}; state key = the decoder's full derived Debug dump (every field, floats in round-trip form), so merged states are identical objects; search to closure (depth cap 20, 4000 states per machine and 200 violations per machine as safety nets, reported if hit). Oracle per transition: result equals a freshly built decoder's. In addition, for matrices with a check or a variable of degree 17, 65, 129, 257 and a 1025-row block-diagonal matrix (thorough: more), every history of two decode calls over 4 vectors x 2 limits (depth-bounded, not closed). Non-trivial = transition from a non-initial state whose previous call was not a zero-iteration shortcut.".into(),
             exhaustive: all_closed,
             extra,
             graph: Some(graph),
-            assumptions: vec!["LLR vectors outside the op menu and matrices other than the eight listed are not explored".into()],
+            assumptions: vec!["LLR vectors outside the op menu and matrices other than the nine listed are not explored".into()],
         },
     )
 }
